@@ -18,6 +18,8 @@ def specs_for(tier, seed):
         # the same program description is compiled at its own version and at later ones, under every option pair
         for v in sorted({v0, 8, 9, 10} if tier == "quick" else set(range(v0, 11))):
             opts = [{"scratch_slots": a, "frame_pointers": b} for a in (True, False) for b in ((True, False) if v >= 8 else (None,))]
+            # version-dependent defaults: nothing given, and each flag given alone
+            opts += [{}] + [{"scratch_slots": a} for a in (True, False)] + ([{"frame_pointers": b} for b in (True, False)] if v >= 8 else [])
             out.append({"seed": seed * 100003 + 52000 + i, "version": v, "gen_version": v0, "mode": "Application", "size": 3,
                         "features": {"recursion": i % 2 == 0}, "options": opts})
     return out
@@ -57,6 +59,17 @@ def run(report: Report, tier, seed):
         contract="observable outcome, empty stack at exit and final contents of user-numbered slots identical for all settings (each equals the description's meaning)",
         bound=f"{len(specs)} (program, version) pairs from {len({s['seed'] for s in specs})} generated programs (seed {seed}) x all option pairs x 2 contexts",
         cases=ran, distinct_nontrivial=nontrivial, failures=len(fails) + len(known)))
+    from . import opt_scenarios
+    from concurrent.futures import ProcessPoolExecutor
+    sj = opt_scenarios.jobs(tier)
+    with ProcessPoolExecutor(max_workers=16) as ex:
+        sr = list(ex.map(opt_scenarios.case, sj, chunksize=4))
+    sbad = [r for r in sr if r["problems"]]
+    report.bounded.append(Bounded(
+        function="slot optimiser exclusion rules (collect_unoptimized_slots + option plumbing in Compilation)",
+        contract="an adjacent store/load pair on an auto / reserved / low-id slot, observed later directly, from another routine, through a DynamicScratchVar or by reference, behaves the same under every setting (hand-written expected logs and final slot content)",
+        bound=f"{len(opt_scenarios.KINDS)} slot kinds x {len(opt_scenarios.PLACES)} placements x {len(opt_scenarios.OBSERVERS)} observers x versions x 9 option settings",
+        cases=sum(r["ran"] for r in sr), distinct_nontrivial=len(sj), failures=len(sbad)))
     report.extra["explanation"] = ("P: option-default functions and the optimiser's removal precondition (pyvc); "
                                    "B: whole-program option independence on generated programs")
 
@@ -79,6 +92,9 @@ def run(report: Report, tier, seed):
         k = known[0]
         report.violation(Violation(key=KNOWN_KEY, what="optimised program leaves extra values on the stack: " + k["mismatches"][0]["what"][:200],
                                    replay=k, confirmed_native=True))
+    for b in sbad[:3]:
+        report.violation(Violation(key=f"scenario:{b['job']}:{b['problems'][0]['setting']}", what=f"slot scenario {b['job']} under (scratch_slots, frame_pointers)={b['problems'][0]['setting']}: {b['problems'][0]['what']}"[:400],
+                                   replay={"scenario": b["job"], "problems": b["problems"][:2]}, confirmed_native=True))
     if fails:
         f = fails[0]
         report.violation(Violation(key=f"bounded:{f['input']['spec']['seed']}:{f['input']['spec']['version']}",
@@ -88,6 +104,11 @@ def run(report: Report, tier, seed):
 def replay(data):
     r = data.get("replay") or {}
     nat = r.get("native") or r
+    if "scenario" in r:
+        from . import opt_scenarios
+        out = opt_scenarios.case(tuple(r["scenario"]))
+        print(out["problems"][:2])
+        return 1 if out["problems"] else 0
     spec = (nat.get("input") or {}).get("spec")
     if not spec:
         print("no concrete input; refuted:", [x["id"] for x in r.get("refuted", [])])
